@@ -1,6 +1,8 @@
 import HmfVerif.Real.Tactics
 import HmfVerif.Gen.ExprFlow
 import HmfVerif.Spec.Wiring
+import HmfVerif.Gen.Guards
+import HmfVerif.Spec.Guards
 /-!
 # C03 — linear power is normalised to σ₈ and scales with the growth factor
 Algebraic skeleton on the regenerated `Transfer` bodies; the exactness of the normalisation on the
@@ -56,5 +58,8 @@ theorem power_elementwise :
 
 /-- the transfer component is built from the object's cosmology (with `cosmo_params` applied) and `transfer_params` only -/
 theorem transfer_component_wiring : Gen.Flow.wiring.lookup "Transfer.transfer" = some Spec.Wiring.transfer := by decide
+
+/-- the σ₈-integration range test and the validators' ranges in transfer.py are the documented ones; no new special case -/
+theorem guards_transfer : Gen.Guards.transfer = Spec.Guards.transfer := by decide
 
 end Hmf.C03
